@@ -6,6 +6,8 @@ use std::sync::Mutex;
 use std::time::{Duration, Instant};
 
 use serde_json::{json, Value};
+use teos_common::receipts::RegistrationReceipt;
+use teos_common::UserId;
 
 use crate::plugin::*;
 use crate::report::{Run, Tier};
@@ -42,6 +44,9 @@ pub enum Step {
     WaitDeliveredWithin(usize, u64),
     /// wait (bounded) until the tower is holding a request of the client
     WaitInFlight(usize),
+    /// from now on the tower answers register requests with the (validly signed) receipt of its n-th registration:
+    /// a replay of the current one or an older, shorter one
+    RegistrationCounter(usize, u32),
     /// a user command that makes the client talk to the tower (getsubscriptioninfo, getappointment, pingtower);
     /// whatever it answers, it must answer
     Query(usize, String),
@@ -146,6 +151,26 @@ impl Ctx {
             None => return,
         };
         let proofs: BTreeSet<String> = store.proofs.iter().cloned().collect();
+        // every registration on record carries a receipt that verifies under the id of its tower, and each one
+        // extends the one recorded before it
+        let user: Option<UserId> = self.towers.iter().find_map(|t| {
+            t.state.lock().unwrap().log.iter().find(|s| s.path == "/register").and_then(|s| s.body["user_id"].as_str().and_then(|h| hex::decode(h).ok()).and_then(|b| UserId::from_slice(&b).ok()))
+        });
+        let mut last: BTreeMap<String, u32> = BTreeMap::new();
+        for (tid, slots, start, expiry, sig) in store.registrations.iter() {
+            if let (Some(user), Some(t)) = (user, (0..self.towers.len()).find(|t| self.tower_hex(*t) == *tid)) {
+                let r = RegistrationReceipt::with_signature(user, *slots, *start, *expiry, sig.clone());
+                if !r.verify(&teos_common::TowerId(self.towers[t].keys.pk)) {
+                    self.v("C14", "registration-on-record-does-not-verify".into(), format!("tower {t}: slots {slots} start {start} expiry {expiry} signature {:?} (after {after})", &sig[..sig.len().min(20)]));
+                }
+            }
+            if let Some(prev) = last.get(tid) {
+                if *expiry <= *prev {
+                    self.v("C14", "registration-on-record-does-not-extend-the-previous-one".into(), format!("tower {}: expiry {expiry} recorded after {prev} (after {after})", &tid[..8]));
+                }
+            }
+            last.insert(tid.clone(), *expiry);
+        }
         for (loc, towers) in self.notified.clone() {
             for t in towers {
                 if self.abandoned.contains(&t) {
@@ -286,6 +311,11 @@ pub fn run_scenario(sc: &Scenario, props: &[&'static str]) -> Trace {
             Step::Up(t) => cx.towers[*t].set_up(true),
             Step::Release(t) => cx.towers[*t].release(),
             Step::LoseSubscription(t) => cx.towers[*t].state.lock().unwrap().needs_renewal = true,
+            Step::RegistrationCounter(t, n) => {
+                let mut st = cx.towers[*t].state.lock().unwrap();
+                st.registrations = *n;
+                st.stale_registration = true;
+            }
             Step::Sleep(ms) => std::thread::sleep(Duration::from_millis(*ms)),
             Step::Retry(t) => {
                 let st = cx.status_of(*t).unwrap_or_default();
@@ -307,6 +337,10 @@ pub fn run_scenario(sc: &Scenario, props: &[&'static str]) -> Trace {
                 let r = cx.client.as_mut().and_then(|c| c.call("abandontower", json!([id]), Duration::from_secs(3)));
                 cx.trace.events.push(format!("abandon({t}) -> {}", r.is_some()));
                 cx.abandoned.insert(*t);
+                // what it was given so far is gone for good, also if it is registered again later
+                for (_, ts) in cx.notified.iter_mut() {
+                    ts.retain(|x| x != t);
+                }
                 cx.check_alive(&name);
             }
             Step::Restart | Step::RestartWithCrashAt(_) => {
@@ -366,6 +400,14 @@ pub fn run_scenario(sc: &Scenario, props: &[&'static str]) -> Trace {
                     let st = cx.status_of(*t).unwrap_or_default();
                     cx.v("C13", format!("pending-not-delivered-after-recovery:status-{st}"), format!("tower {t} is up, yet its pending appointments were not delivered within {:?}; events {:?}", budget, cx.trace.events));
                 } else {
+                    // nothing pending any more because it was delivered and acknowledged (or refused), not because it vanished
+                    let store = read_store(&cx.dir).unwrap_or_default();
+                    for (loc, ts) in cx.notified.clone() {
+                        let key = (id.clone(), loc.clone());
+                        if ts.contains(t) && !store.proofs.contains(&id) && !store.receipts.contains(&key) && !store.invalid.contains(&key) {
+                            cx.v("C13", "pending-vanished-instead-of-being-delivered".into(), format!("tower {t}, revocation {}: no longer pending, yet neither acknowledged nor refused; events {:?}", &loc[..8], cx.trace.events));
+                        }
+                    }
                     // shown reachable again with nothing pending
                     let budget2 = Duration::from_secs(3);
                     let mut st = String::new();
@@ -630,12 +672,63 @@ fn c14_scenarios(tier: Tier) -> Vec<Scenario> {
             steps: vec![Step::Register(0), Step::Script(0, reg.clone(), vec![k.clone()]), Step::RegisterExpectError(0), Step::Revoke(1), Step::Settle],
         });
     }
+    // registration replies on the retry path: the tower has lost the subscription, the retrier registers again by itself
+    // and gets each kind of reply first (then a good one): nothing but a verifying, extending receipt is recorded
+    for k in [
+        Reply::WrongKey,
+        Reply::BadSignature("".into()),
+        Reply::BadSignature("d96gtkjumhr9".into()),
+        Reply::NonJson,
+        Reply::WrongShape,
+        Reply::Empty,
+        Reply::Hangup,
+        Reply::Reject(65),
+        Reply::Dropped("subscription_signature".into()),
+        Reply::Mutated("available_slots".into(), json!(4294967295u64)),
+        Reply::Mutated("subscription_expiry".into(), json!(4294967295u64)),
+        Reply::Mutated("subscription_expiry".into(), json!(0)),
+    ] {
+        v.push(Scenario {
+            name: format!("retry-path-registration:{}", label(&k)),
+            towers: 1,
+            opts: RetryOpts::default(),
+            steps: vec![Step::Register(0), Step::LoseSubscription(0), Step::Script(0, reg.clone(), vec![k.clone()]), Step::Revoke(1), Step::Settle, Step::Revoke(2), Step::Settle, Step::Restart, Step::Settle],
+        });
+    }
+    // validly signed receipts that do not extend what the client knows: a replay of the current one, an older one;
+    // as an answer to the user's command and to the retrier's registration; from the initial state and after a restart
+    // with a second tower whose subscription ends when this one's first one did
+    for (name, n) in [("replayed", 2u32), ("older", 1)] {
+        for t in [0usize, 1] {
+            for restart in [false, true] {
+                let mut steps = vec![Step::Register(0), Step::Register(1), Step::Register(t), Step::Revoke(1), Step::Settle];
+                if restart {
+                    steps.push(Step::Restart);
+                }
+                steps.extend(vec![Step::RegistrationCounter(t, n), Step::RegisterExpectError(t), Step::Revoke(2), Step::Settle, Step::LoseSubscription(t), Step::Revoke(3), Step::Settle]);
+                v.push(Scenario { name: format!("two-towers:renewed-tower-{t}:{name}-receipt:restart={restart}"), towers: 2, opts: RetryOpts::default(), steps });
+            }
+        }
+    }
     v
 }
 
 fn c05_scenarios(tier: Tier) -> Vec<Scenario> {
     let add = "/add_appointment".to_owned();
-    let kinds = vec![Reply::Accept, Reply::SubscriptionError, Reply::Reject(36), Reply::NonJson, Reply::WrongShape, Reply::Html5xx, Reply::Empty, Reply::Hangup];
+    let kinds = vec![
+        Reply::Accept,
+        Reply::SubscriptionError,
+        Reply::Reject(36),
+        Reply::NonJson,
+        Reply::WrongShape,
+        Reply::Html5xx,
+        Reply::Empty,
+        Reply::Hangup,
+        // malformed signatures (empty; short; not zbase32) and a well-formed one of another key
+        Reply::BadSignature("".into()),
+        Reply::BadSignature("d96gtkjumhr9".into()),
+        Reply::WrongKey,
+    ];
     let mut v = Vec::new();
     let maxlen = if tier == Tier::Quick { 2 } else { 3 };
     // every sequence of reply kinds (notification path), tower up
@@ -682,6 +775,50 @@ fn c05_scenarios(tier: Tier) -> Vec<Scenario> {
         steps.extend(vec![Step::Revoke(1), Step::Revoke(1), Step::Settle, Step::Revoke(2), Step::Settle]);
         v.push(Scenario { name: format!("duplicate-notification:{name}"), towers: 1, opts: RetryOpts::default(), steps });
     }
+    // two towers share the data of a commitment: one has acknowledged it, the other still has it pending; the commitment
+    // is notified again while the first one is down, which then comes back and acknowledges again: the other's record stays
+    v.push(Scenario {
+        name: "two-towers:duplicate-while-the-acknowledging-tower-is-down:other-still-pending".into(),
+        towers: 2,
+        opts: RetryOpts::default(),
+        steps: vec![
+            Step::Register(0),
+            Step::Register(1),
+            Step::Down(1),
+            Step::Revoke(1),
+            Step::Settle,
+            Step::Down(0),
+            Step::Revoke(1),
+            Step::Up(0),
+            Step::WaitStatus(0, "reachable".into()),
+            Step::Settle,
+            Step::Restart,
+            Step::Settle,
+            Step::Up(1),
+            Step::WaitDelivered(1),
+            Step::Settle,
+        ],
+    });
+    // the same with the other one holding it as invalid
+    v.push(Scenario {
+        name: "two-towers:duplicate-while-the-acknowledging-tower-is-down:other-rejected-it".into(),
+        towers: 2,
+        opts: RetryOpts::default(),
+        steps: vec![
+            Step::Register(0),
+            Step::Register(1),
+            Step::Default(1, add.clone(), Reply::Reject(36)),
+            Step::Revoke(1),
+            Step::Settle,
+            Step::Down(0),
+            Step::Revoke(1),
+            Step::Up(0),
+            Step::WaitStatus(0, "reachable".into()),
+            Step::Settle,
+            Step::Restart,
+            Step::Settle,
+        ],
+    });
     // two towers, one of them failing in each way; a revocation while the retrier is running
     for k in kinds.iter() {
         v.push(Scenario {
@@ -850,6 +987,64 @@ fn c13_scenarios(_tier: Tier) -> Vec<Scenario> {
     let add = "/add_appointment".to_owned();
     let fast = RetryOpts { max_retry_time: 2, auto_retry_delay: 3, max_retry_interval: 1 };
     let mut v = vec![
+        // the tower is abandoned while it is being retried, registered again later, and has another outage: the new
+        // data is delivered once it is back (no left-over of the first retry loop stands in the way)
+        Scenario {
+            name: "abandoned-while-retried:registered-again:second-outage".into(),
+            towers: 1,
+            opts: RetryOpts { max_retry_time: 6, auto_retry_delay: 3, max_retry_interval: 1 },
+            steps: vec![
+                Step::Register(0),
+                Step::Down(0),
+                Step::Revoke(1),
+                // (the retry manager picks new work up once a second: by now the retry loop is running, and will be for 4 s more)
+                Step::Sleep(1800),
+                Step::Abandon(0),
+                Step::Sleep(2500),
+                Step::Up(0),
+                Step::Register(0),
+                Step::Down(0),
+                Step::Revoke(2),
+                Step::Sleep(300),
+                Step::Up(0),
+                Step::WaitDelivered(0),
+            ],
+        },
+        // the same with the first retry loop already idle (it gave up)
+        Scenario {
+            name: "abandoned-while-idle:registered-again:second-outage".into(),
+            towers: 1,
+            opts: fast,
+            steps: vec![
+                Step::Register(0),
+                Step::Down(0),
+                Step::Revoke(1),
+                Step::WaitStatus(0, "unreachable".into()),
+                Step::Abandon(0),
+                Step::Sleep(500),
+                Step::Up(0),
+                Step::Register(0),
+                Step::Down(0),
+                Step::Revoke(2),
+                Step::Sleep(300),
+                Step::Up(0),
+                Step::WaitDelivered(0),
+            ],
+        },
+        // another tower is abandoned while this one is in an outage (running, resp. idle retrier): its pending data is
+        // still delivered when it is back
+        Scenario {
+            name: "other-tower-abandoned-during-outage:retrier-running".into(),
+            towers: 2,
+            opts: RetryOpts { max_retry_time: 6, auto_retry_delay: 3, max_retry_interval: 1 },
+            steps: vec![Step::Register(0), Step::Register(1), Step::Down(0), Step::Revoke(1), Step::Sleep(300), Step::Abandon(1), Step::Up(0), Step::WaitDelivered(0)],
+        },
+        Scenario {
+            name: "other-tower-abandoned-during-outage:retrier-idle".into(),
+            towers: 2,
+            opts: fast,
+            steps: vec![Step::Register(0), Step::Register(1), Step::Down(0), Step::Revoke(1), Step::WaitStatus(0, "unreachable".into()), Step::Abandon(1), Step::Up(0), Step::WaitDelivered(0)],
+        },
         Scenario {
             name: "recovers-while-retrier-running:no-overlap".into(),
             towers: 1,
@@ -1156,7 +1351,7 @@ pub fn c14(tier: Tier) -> i32 {
 }
 
 pub fn c05(tier: Tier) -> i32 {
-    run_p("C05", tier, c05_scenarios(tier), "every sequence of reply kinds up to length 2 (quick) / 3 (thorough) over {accept, subscription error, rejection, non-JSON, wrong shape, 5xx page, empty, hang-up} on the notification path, up to length 2 on the retry path, duplicate notifications in four client states, two towers with one failing, revocations while the retrier runs / while the tower is unreachable, SIGKILL + restart after every scenario, and an abort (crash point H1, VERIF_CRASH_AT) at each of the first n durable writes of three flows; oracle at every quiescent point, read from the client's sqlite file: every notified commitment x every live tower is recorded as exactly one of receipt / pending+data / invalid+data (at a kill: at least one)")
+    run_p("C05", tier, c05_scenarios(tier), "every sequence of reply kinds up to length 2 (quick) / 3 (thorough) over {accept, subscription error, rejection, non-JSON, wrong shape, 5xx page, empty, hang-up, empty / short malformed signature, signature of another key} on the notification path, up to length 2 on the retry path, duplicate notifications in four client states, two towers with one failing, a duplicate notification while the acknowledging tower is down and the other one holds the commitment as pending / invalid, revocations while the retrier runs / while the tower is unreachable, SIGKILL + restart after every scenario, and an abort (crash point H1, VERIF_CRASH_AT) at each of the first n durable writes of three flows; oracle at every quiescent point, read from the client's sqlite file: every notified commitment x every live tower is recorded as exactly one of receipt / pending+data / invalid+data (at a kill: at least one)")
 }
 
 pub fn c13(tier: Tier) -> i32 {
